@@ -70,9 +70,11 @@ class SimThread:
 class SimLock:
     """Drop-in for threading.Lock inside the simulation."""
 
-    def __init__(self, sched, name="lock"):
+    def __init__(self, sched, name="lock", reentrant=False):
         self.sched = sched
         self.name = name
+        self.reentrant = reentrant
+        self.depth = 0
         self.owner = None
         self.waiters: list = []
         self.acquisitions = 0
@@ -85,6 +87,12 @@ class SimLock:
             self.owner = "driver"
             return True
         s.shared_point(me, ("lock-acquire", self.name, 0))
+        if self.owner is me:
+            if self.reentrant:
+                self.depth += 1
+                return True
+            # a plain Lock taken again by the thread that holds it never comes back
+            s._fail(Deadlock(f"thread {me.idx} acquires the non-reentrant lock {self.name} which it already holds"))
         while self.owner is not None and self.owner is not me:
             if not blocking:
                 return False
@@ -96,6 +104,7 @@ class SimLock:
             # woken up: try again
         me.blocked_on = None
         self.owner = me
+        self.depth = 1
         self.acquisitions += 1
         # holding a lock is where lock-order inversions and lost updates need the other thread to run
         s.after_acquire(me, self)
@@ -103,6 +112,10 @@ class SimLock:
 
     def release(self):
         s = self.sched
+        if self.reentrant and self.depth > 1:
+            self.depth -= 1
+            return
+        self.depth = 0
         self.owner = None
         if self.waiters:
             # hand-off order is a scheduler decision
@@ -632,26 +645,30 @@ def code_groups():
 
 
 def patch_locks(sched: Scheduler) -> list:
-    """Replace every real lock reachable as a module global / class attribute under explorerscript.* by a SimLock."""
+    """Replace every real lock reachable as a module global / class attribute under explorerscript.* by a SimLock.
+    All bindings of one real lock (a module that imported it by name) get the SAME SimLock."""
     replaced = []
     lock_types = (type(threading.Lock()), type(threading.RLock()))
-    for name, mod in list(sys.modules.items()):
+    rlock_type = type(threading.RLock())
+    by_real: dict = {}
+
+    def sim_for(real, label):
+        sl = by_real.get(id(real))
+        if sl is None:
+            sl = SimLock(sched, label, reentrant=isinstance(real, rlock_type))
+            by_real[id(real)] = (sl, real)  # keep the real lock alive: its id must stay unique
+            replaced.append(label)
+            return sl
+        return sl[0]
+
+    for name, mod in sorted(sys.modules.items()):
         if not name.startswith("explorerscript") or mod is None:
             continue
         for attr, val in list(vars(mod).items()):
             if isinstance(val, lock_types):
-                setattr(mod, attr, SimLock(sched, f"{name}.{attr}"))
-                replaced.append(f"{name}.{attr}")
+                setattr(mod, attr, sim_for(val, f"{name}.{attr}"))
             elif isinstance(val, type) and val.__module__ == name:
                 for a2, v2 in list(vars(val).items()):
                     if isinstance(v2, lock_types):
-                        setattr(val, a2, SimLock(sched, f"{name}.{val.__name__}.{a2}"))
-                        replaced.append(f"{name}.{val.__name__}.{a2}")
-    # modules that imported the lock by name keep a reference to the old object: rebind those too
-    for name, mod in list(sys.modules.items()):
-        if not name.startswith("explorerscript") or mod is None:
-            continue
-        for attr, val in list(vars(mod).items()):
-            if isinstance(val, lock_types):
-                setattr(mod, attr, SimLock(sched, f"{name}.{attr}"))
+                        setattr(val, a2, sim_for(v2, f"{name}.{val.__name__}.{a2}"))
     return replaced
